@@ -26,6 +26,7 @@ type wop struct {
 	raw    bool   // frames: raw message instead of decoded
 	other  bool   // frames: the frame's version is the opposite of the node's output version
 	unenc  bool   // messages: a raw message whose id the dialect does not contain; no link can encode it
+	big    bool   // messages: the longest message there is (255 payload bytes, the last one non-zero)
 }
 
 func (o wop) String() string {
@@ -92,7 +93,7 @@ func fwdFrame(p, i int, v2, raw bool) (frame.Frame, ref.Frame) {
 
 func TestC11FanOut(t *testing.T) {
 	rec := evid.New(t, "C11", "2..5 channels on custom transports, 1..4 producer goroutines each running a generated program of WriteMessage/WriteFrame x All/To/Except with items tagged (producer, counter), targets including a closed channel, a channel of another node and nil; flow control keeps every channel's backlog below the 64-item queue; incoming traffic and a paced consumer run concurrently; per channel every transport write must be exactly one whole frame, each addressed item appears exactly once, nothing else appears, per (producer, channel) order is submission order, forwarded frames keep their header, frames received from outside (raw and decoded) are kept by the application and forwarded after everything else and must go out as they came in, unencodable items cost no other item its place, originated messages carry the node's ids and the link's own gapless sequence; non-trivial = >=2 producers on >=3 channels with at least one Except and one To; distinct by hash of the programs")
-	rec.Require("2+producers-3+channels-to-except", "closed-target", "foreign-target", "v1", "v2", "signed", "after-overflow-and-recovery", "unencodable-item-between-valid-ones", "received-frames-kept-and-forwarded-later")
+	rec.Require("2+producers-3+channels-to-except", "closed-target", "foreign-target", "v1", "v2", "signed", "after-overflow-and-recovery", "unencodable-item-between-valid-ones", "received-frames-kept-and-forwarded-later", "longest-message-on-a-signed-link")
 	evid.Check(t, rec, evid.N(300, 800), func(t *rapid.T) {
 		drawNodeInit(t)
 		w := &c11World{}
@@ -122,6 +123,8 @@ func TestC11FanOut(t *testing.T) {
 				if strings.HasPrefix(o.kind, "Msg") && nUnenc < 3 && rapid.IntRange(0, 11).Draw(t, "unencodable") == 0 {
 					o.unenc = true
 					nUnenc++
+				} else if strings.HasPrefix(o.kind, "Msg") && i < 60000 && rapid.IntRange(0, 9).Draw(t, "longest_message") == 0 {
+					o.big = true
 				}
 				prog = append(prog, o)
 			}
@@ -152,13 +155,14 @@ func TestC11FanOut(t *testing.T) {
 			t.Fatalf("%s%v", w.describe(), err)
 		}
 		var cls []string
-		hasTo, hasExcept, closedT, foreignT, unencT := false, false, false, false, false
+		hasTo, hasExcept, closedT, foreignT, unencT, bigT := false, false, false, false, false, false
 		for _, prog := range w.programs {
 			for _, o := range prog {
 				hasTo = hasTo || strings.HasSuffix(o.kind, "To")
 				hasExcept = hasExcept || strings.HasSuffix(o.kind, "Except")
 				closedT = closedT || o.target == -1
 				unencT = unencT || o.unenc
+				bigT = bigT || (o.big && w.key != nil)
 				foreignT = foreignT || o.target == -2
 			}
 		}
@@ -174,6 +178,9 @@ func TestC11FanOut(t *testing.T) {
 		}
 		if unencT {
 			cls = append(cls, "unencodable-item-between-valid-ones")
+		}
+		if bigT {
+			cls = append(cls, "longest-message-on-a-signed-link")
 		}
 		if w.relayedFrames >= 4 {
 			cls = append(cls, "received-frames-kept-and-forwarded-later")
@@ -487,9 +494,15 @@ func runC11(w *c11World) error {
 							err = n.WriteFrameExcept(handle(o.target), fr)
 						}
 					} else {
-						var m message.Message = &common.MessageDebug{TimeBootMs: uint32(i), Ind: byte(p), Value: 2.5}
+						dbg := &common.MessageDebug{TimeBootMs: uint32(i), Ind: byte(p), Value: 2.5}
+						var m message.Message = dbg
+						var bigMsg *common.MessageEncapsulatedData
 						if o.unenc {
 							m = &message.MessageRaw{ID: 999999, Payload: []byte{byte(p), byte(i), 3}}
+						} else if o.big {
+							bigMsg = &common.MessageEncapsulatedData{Seqnr: uint16(i)}
+							bigMsg.Data[0], bigMsg.Data[252] = byte(p), 0xEE
+							m = bigMsg
 						}
 						switch o.kind {
 						case "MsgAll":
@@ -498,6 +511,11 @@ func runC11(w *c11World) error {
 							err = n.WriteMessageTo(handle(o.target), m)
 						case "MsgExcept":
 							err = n.WriteMessageExcept(handle(o.target), m)
+						}
+						// the call has returned: the value is the application's again, and it reuses it
+						dbg.TimeBootMs, dbg.Ind, dbg.Value = 0xDEAD0000|uint32(i&0xFFFF), 251, -1
+						if bigMsg != nil {
+							bigMsg.Seqnr, bigMsg.Data[0], bigMsg.Data[252] = 0xDEAD, 251, 0
 						}
 					}
 				}()
@@ -618,16 +636,25 @@ func runC11(w *c11World) error {
 				relayIdx++
 				continue
 			}
-			if f.ID != debugMsgID {
+			if f.ID != debugMsgID && !(f.ID == 131 && f.Sys == nodeSys) {
 				return fmt.Errorf("channel %d write %d: unexpected message id %d", c, k, f.ID)
 			}
-			v, derr := lay(debugMsgID).Decode(f.Payload, f.V2)
+			v, derr := lay(f.ID).Decode(f.Payload, f.V2)
 			if derr != nil {
 				return fmt.Errorf("channel %d write %d: %v", c, k, derr)
 			}
-			dm := v.(*common.MessageDebug)
-			it := item{p: int(dm.Ind), i: int(dm.TimeBootMs)}
-			if f.Checksum != f.ChecksumFor(lay(debugMsgID).CRCExtra) {
+			var it item
+			if f.ID == 131 {
+				em := v.(*common.MessageEncapsulatedData)
+				it = item{p: int(em.Data[0]), i: int(em.Seqnr)}
+				if len(f.Payload) != 255 || em.Data[252] != 0xEE {
+					return fmt.Errorf("channel %d write %d: the 255-byte message (producer %d, #%d) went out with %d payload bytes, last data byte %#x (submitted 0xEE)", c, k, it.p, it.i, len(f.Payload), em.Data[252])
+				}
+			} else {
+				dm := v.(*common.MessageDebug)
+				it = item{p: int(dm.Ind), i: int(dm.TimeBootMs)}
+			}
+			if f.Checksum != f.ChecksumFor(lay(f.ID).CRCExtra) {
 				return fmt.Errorf("channel %d write %d: wrong checksum", c, k)
 			}
 			if f.Sys == nodeSys {
